@@ -40,6 +40,14 @@ PROPS = {
         decisive=["kind", "bytes", "str", "vars", "size", "stream", "function", "wbit", "sid", "sys", "type", "entries"],
         decisive_why="C03_sound/C03_complete: the model accepts exactly the well-formed frames and returns the message they denote; C03_unique: there is no other",
     ),
+    "C14": dict(
+        prop_file="props/C14.v", proof_files=WIRE_PROOFS + ["CtrlProofs.v"], tie_files=["CtrlTie.v", "TablesTie.v"],
+        suites=["C14"],
+        decisive=["kind", "bytes", "type", "entries"],
+        decisive_why="C14_layout_*, C14_echo: the header layout is stated byte by byte; C14_type_total: the type of every (PType, SType) pair; C14_decode",
+        exhaustive=True,
+        rule="all 65,536 session ids through the constructors, all 256 status and reason codes, all 65,536 (PType, SType) pairs through Type() (and a ninth of them, plus PType 0..2 completely, through the decoder); distinct = distinct case texts",
+    ),
     "C13": dict(
         prop_file="props/C13.v", proof_files=WIRE_PROOFS, tie_files=["TablesTie.v"],
         suites=["C13"],
